@@ -41,7 +41,9 @@ type X struct {
 	Name string
 	Args []*X
 	V    ssa.Value
-	Addr bool
+	// Callee is the statically resolved target of a call node (nil for dynamic calls).
+	Callee *ssa.Function
+	Addr   bool
 	// Cell is the variable cell this value was loaded from, if any.
 	Cell *ssa.Alloc
 }
@@ -542,7 +544,7 @@ func (b *xbuilder) callExpr(v ssa.Value, cc *ssa.CallCommon, sub func(ssa.Value)
 		}
 	}
 	kind, name := b.calleeName(cc)
-	x := &X{Op: kind, Name: name, V: v}
+	x := &X{Op: kind, Name: name, V: v, Callee: cc.StaticCallee()}
 	if kind == "invoke" || kind == "dyncall" {
 		x.Args = append(x.Args, sub(cc.Value))
 	}
